@@ -9,7 +9,9 @@ the theorems say that this bookkeeping is sound in the directory and name what i
 ideal rule (merge.py removes a parent none of whose children exists: after Cascade(s) a tile above level s exists iff
 a tile of level s lies below it); the steps on which tile files disappear are named CascadeRemovesOrphans (ghost
 `pruned`; not a deviation - the harness additionally asserts on the real directory that every tile TLC removes on such
-a step is gone).  The code's habit of leaving an OUTPUT tile in place when its data tile has disappeared is modelled
+a step is gone).  A start level >= 1 that holds no tile file is REFUSED (cascade_images raises ValueError before touching
+anything): action CascadeRefused, nothing changes; the harness requires the ValueError and an unchanged directory, so an
+accepted cascade never empties a non-empty pyramid (theorem CascadeNeverErases).  The code's habit of leaving an OUTPUT tile in place when its data tile has disappeared is modelled
 faithfully as the deviation action TransformLeavesStale.
 
 TLC (a) explores every command sequence up to a bound (T = 2 abstract pixels, depth <= 2) and checks the theorems,
@@ -112,10 +114,11 @@ CRAFTED = [
     # orphans are first averaged into the root by a cascade from their own level (which does not visit them), then
     # removed by the cascade from the level below them; the root is repaired
     ("orphans-averaged-then-removed", [sample(2), cascade(2), sample(2, LEFT, "clobber", 1), cascade(1), cascade(2), transform(2)]),
-    # a chain of orphans is removed bottom-up: a cascade started deeper than the data finds an empty start level and
-    # erases level 1, then the root; the outputs and the WTML stay behind
-    ("cascade-from-deeper", [sample(1), cascade(1), transform(1), write_wtml(), cascade(2), transform(1)]),
-    ("cascade-from-deeper-resampled", [sample(0), cascade(1), sample(1, MID, "update", 1), cascade(2), sample(1, LEFT), cascade(1)]),
+    # a cascade started deeper than the data finds an empty start level: refused (ValueError), the pyramid, its outputs
+    # and the WTML survive untouched; also through Builder.cascade() and on an empty directory
+    ("cascade-from-deeper-refused", [sample(1), cascade(1), transform(1), write_wtml(), cascade(2), transform(1)]),
+    ("cascade-from-deeper-refused-resampled", [sample(0), cascade(1), sample(1, MID, "update", 1), cascade(2), sample(1, LEFT), cascade(1)]),
+    ("cascade-refused-then-accepted", [cascade(1), sample(1, RIGHT), cascade(2), cascade(1), transform(1), cascade(2)]),
     # sessions
     ("sessions", [write_wtml(), sample(1), new_builder("npy"), write_wtml(), cascade(1), new_builder("png")]),
     ("png-session", [new_builder("png"), transform(1), write_wtml(), new_builder("npy"), sample(1, RIGHT), write_wtml()]),
@@ -150,18 +153,20 @@ def random_script(rng, length):
 # TLC
 # ------------------------------------------------------------------------------------------------
 BASE_INVARIANTS = ["TypeOK", "ConsistentLevels", "NeverStoredUndefined", "ExistenceIdeal", "NoOrphanAfterCascade", "PromisedLevelsIdeal",
-                   "AlwaysIdealAfterCascade", "StandardSequenceExact", "NoShrinkNoOrphan", "RecascadeNoOp", "PrunesExactlyWhenStale",
-                   "FreshLevels", "NoLossNoStaleOutput", "OutputComplete",
+                   "AlwaysIdealAfterCascade", "StandardSequenceExact", "NoShrinkNoOrphan", "RecascadeNoOp", "CascadeEveryState",
+                   "NoLevelWithOutputOnly", "CascadePrunesOnlyAfterShrink",
+                   "FreshLevels", "NoLossNoStaleOutput", "NoShrinkNoStaleOutput", "OutputComplete",
                    "BuilderKnowsDepth", "WtmlCurrent", "WtmlLevelsDeepest", "WtmlServes", "UnsampledBuilderLevelsZero"]
+# CascadeEveryState = PrunesExactlyWhenStale /\ CascadeNeverErases (one cascade per start level and state instead of two)
 OPERATOR_INVARIANTS = ["CascadeOperator", "TransformOperator"]
 # statements the code does not keep: TLC must refute each.  (NoOrphanAfterCascade / AlwaysIdealAfterCascade were refuted
-# until merge.py removed childless parents: they are theorems now.  NoShrinkNoStaleOutput was a theorem until then: a
-# cascade that deletes data tiles leaves their output tiles behind.)
-REFUTED = ["CascadePrunesOnlyAfterShrink", "NoShrinkNoStaleOutput", "NothingDeeperThanBase", "NoStaleOutput", "WtmlAlwaysDeepest",
-           "TransformCommutesWithMerge"]
+# until merge.py removed childless parents: they are theorems now.  CascadePrunesOnlyAfterShrink / NoShrinkNoStaleOutput
+# were refuted while cascade_images accepted an empty start level - Sample(d); Cascade(d + 1) erased the pyramid - and are
+# theorems since it refuses one.)
+REFUTED = ["NothingDeeperThanBase", "NoStaleOutput", "WtmlAlwaysDeepest", "TransformCommutesWithMerge"]
 # the action names of a step on which the model keeps a stale tile as the code does (mismatches there are reported as drift)
 DEVIATION_ACTIONS = ("TransformLeavesStale",)
-REQUIRED_ACTIONS = ("Sample", "CascadeClean", "CascadeRemovesOrphans", "TransformClean", "TransformLeavesStale", "WriteWtml", "NewBuilder")
+REQUIRED_ACTIONS = ("Sample", "CascadeClean", "CascadeRemovesOrphans", "CascadeRefused", "TransformClean", "TransformLeavesStale", "WriteWtml", "NewBuilder")
 REGIONS3 = "{<<0, 4>>, <<0, 2>>, <<2, 4>>}"
 REGIONS4 = "{<<0, 4>>, <<0, 2>>, <<2, 4>>, <<1, 3>>}"
 
@@ -482,7 +487,7 @@ def replay_behaviour(job):
     from toasty.builder import Builder
     _memoise_tile_coords()
     findings = []
-    stats = {"steps": 0, "tiles": 0, "acts": {}, "removed_by_cascade": 0, "orphans_removed": 0}
+    stats = {"steps": 0, "tiles": 0, "acts": {}, "removed_by_cascade": 0, "orphans_removed": 0, "refusals": 0}
     base = tempfile.mkdtemp(prefix="g02-", dir=meta["scratch"])
     old = signal.signal(signal.SIGALRM, _alarm)
     signal.alarm(300)
@@ -499,12 +504,30 @@ def replay_behaviour(job):
             op = cmd["op"].lower()
             hist_txt.append(cmd_text(cmd))
             where = "[behaviour %s (%s, %s): %s]" % (meta["id"], meta["name"], meta["dtag"], "; ".join(hist_txt))
+            refused = rec["act"] == "CascadeRefused"
+            raised = None
             try:
                 apply_command(st, cmd, rec, meta)
             except _Timeout:
                 raise
             except BaseException as e:  # noqa
-                findings.append(("V", "G02:%s:raised" % op, "%s raised %r %s" % (cmd_text(cmd), e, where)))
+                raised = e
+            if refused:
+                # the start level holds no tile: the call must raise ValueError (and, compared below, leave the directory as it was)
+                if raised is None:
+                    tiles_now, _o = scan(base)
+                    lost_now = sorted(set(tuple(t["pos"]) for t in before["data"]) - set(q for (e, q) in tiles_now if e == "npy"))
+                    findings.append(("V", "G02:cascade:not-refused",
+                                     "%s returned normally although level %d holds no tile (a ValueError is expected before anything is touched); "
+                                     "data tiles deleted by the call: %s %s" % (cmd_text(cmd), cmd["d"], lost_now, where)))
+                    break
+                if not isinstance(raised, ValueError) or ("level %d" % cmd["d"]) not in str(raised):
+                    findings.append(("V", "G02:cascade:refusal-kind", "%s on an empty start level raised %r, expected ValueError naming level %d %s"
+                                     % (cmd_text(cmd), raised, cmd["d"], where)))
+                    break
+                stats["refusals"] += 1
+            elif raised is not None:
+                findings.append(("V", "G02:%s:raised" % op, "%s raised %r %s" % (cmd_text(cmd), raised, where)))
                 break
             stats["steps"] += 1
             stats["acts"][rec["act"]] = stats["acts"].get(rec["act"], 0) + 1
@@ -611,7 +634,7 @@ def run(ctx):
     quick = ctx.quick
     ctx.rule = ("TLC: every command sequence over {NewBuilder(npy|png), Sample(depth 0-2, 3 column bands, clobber|update), Cascade(0-2), "
                 "Transform(0-2), WriteWtml} up to the stated bound at T = 2, all theorems as invariants (the cascade is the ideal rule: a parent "
-                "none of whose children exists is removed); each 'ideal' statement the code does not keep refuted. "
+                "none of whose children exists is removed; a start level without tiles is refused); each 'ideal' statement the code does not keep refuted. "
                 "Replay: command scripts (crafted standard / adversarial orders + seeded random; inputs only) and TLC's own random walks, "
                 "evaluated by TLC at T = 4 with 4 bands and 2 sources; the real directory is compared after EVERY command. "
                 "distinct = distinct command history whose expected directory holds at least one tile")
@@ -721,7 +744,7 @@ def run(ctx):
         pool.shutdown(wait=True, cancel_futures=True)
 
     # ---- verdicts
-    acts, steps, ntiles, n_gone, n_orph = {}, 0, 0, 0, 0
+    acts, steps, ntiles, n_gone, n_orph, n_ref = {}, 0, 0, 0, 0, 0
     for (meta, states), (findings, stats) in zip(jobs, results):
         ctx.count(stats["steps"])
         ctx.trace_ok()
@@ -729,6 +752,7 @@ def run(ctx):
         ntiles += stats["tiles"]
         n_gone += stats["removed_by_cascade"]
         n_orph += stats["orphans_removed"]
+        n_ref += stats["refusals"]
         for a, v in stats["acts"].items():
             acts[a] = acts.get(a, 0) + v
         for i, rec in enumerate(states[1:]):
@@ -759,6 +783,7 @@ def run(ctx):
     ctx.note("replayed", {"behaviours": len(jobs), "scripts": len(scripts), "tlc_walks": len(jobs) - len([1 for m, _s in jobs if m["name"] != "tlc-walk"]),
                           "commands_executed": steps, "tile_files_compared": ntiles, "steps_by_action": acts,
                           "tiles_removed_by_cascade_verified_gone": n_gone, "of_which_childless_before_the_cascade": n_orph,
+                          "refused_cascades_raised_ValueError_directory_unchanged": n_ref,
                           "script_states": r_s.distinct, "walk_states": r_w.generated})
     ctx.note("phase_wall_s", {"expected_states_emitted": round(t_emit, 1), "replay_done": round(t_replay, 1), "tlc_done": round(time.time() - t0, 1)})
     for meta, states in jobs[:2] + jobs[len(CRAFTED): len(CRAFTED) + 1]:
